@@ -439,6 +439,9 @@ def stamps(H, case, kind):
     last = 0.0
     F = dict((c, 0.0) for c in table)
     count = dict((c, 0) for c in table)
+    arrival_instants = set(a['t'] for a in H.arr)
+    ambiguous = False      # "did the scheduler empty before or after that arrival?" is a same-instant tie
+    emptied_at = None
     for g, what, a in evs:
         c = a['cls']
         if c not in table:
@@ -451,11 +454,14 @@ def stamps(H, case, kind):
                 for x in F:
                     F[x] = 0.0
                 resets += 1
+                if emptied_at is not None and emptied_at < t:
+                    ambiguous = False          # a clean idle gap: the busy period certainly ended, everything was reset
             else:
                 V += (t - last) / sum(table[x] for x in active)
             F[c] = max(F[c], V) + a['size'] * 8.0 / (rate * table[c])
-            a['stamp'] = F[c]
-            a['V'] = V
+            if not ambiguous:
+                a['stamp'] = F[c]
+                a['V'] = V
             count[c] += 1
         else:
             if active:
@@ -465,6 +471,15 @@ def stamps(H, case, kind):
                 V = 0.0
                 for x in F:
                     F[x] = 0.0
+                emptied_at = t
+                if t in arrival_instants:
+                    # an arrival in the very instant the scheduler empties: whether virtual time was reset before that
+                    # packet was stamped depends on the order inside the instant. Until the next clean idle gap the
+                    # stamps are not uniquely determined by the statement: no stamp clause is applied to them.
+                    ambiguous = True
+                    for b in H.arr:
+                        if b['t'] == t:
+                            b.pop('stamp', None)
         last = t
     return resets
 
